@@ -25,6 +25,11 @@ CLAIMS = {
         technique="Lean 4 + Mathlib proofs over the reals of the reflection laws for the reflector definitions regenerated from reflector_{mirror,bounce_back,stochastic}.h by symbolic execution; Lean 4 proofs (core Rat) about a model of the collision loop (Cell::doCollision, checkForHit, WallTriangle::hit, checkNewPosition) for force-free flight in a cuboid: termination, earliest hit, confinement and constant particle number over any number of steps under a no-exact-edge-hit hypothesis, witness of the exact-edge defect; correspondence of outcome, velocity (exact), position and cell with the real binary; oracles for all reflectors with and without forces",
         text="Mirror reverses exactly the normal velocity component and keeps the tangential ones and the speed; bounce-back reverses v; the stochastic reflector keeps the speed and re-emits inward for every pair of random numbers; r' = hit + eps n lies inside (all over R, for the generated definitions). C08_confined_cuboid / C08_count_run: force-free particles stay strictly between the walls and their number is constant for every step count, or the documented error is raised, provided no hit is exactly on an edge; C08_edge_witness shows that an exact edge hit with ReflectorMirror loses the particle - reproduced on the binary and recorded as known finding. PARTIAL: accelerated flight, c_wt_dist_eps decisions in doubles, STL walls, the stochastic reflector inside the loop are covered by the oracles only.",
         note=BASE_NOTE + "The collision-loop model is hand-written (tie: correspondence); the reflector laws are about regenerated definitions (tie: translator + rat-instance bridge theorems). eps/delta/geps enter the model as the exact rational values of the C++ doubles."),
+    "C20": dict(
+        level="proof", design="DESIGN.md section 3, C20 (PARTIAL: freedom from data races)",
+        technique="Lean 4 proofs about a model of the OpenMP build (round-robin link->thread assignment over any activation history, per-thread pair lists, per-thread copy cells, accumulation as ANY interleaving of atomic +=, serial merge that zeroes the copies, slot reuse across stages): partition, commutation, merge = serial sum, no leak, independence of the thread count; correspondence of the real OpenMP binary's link->thread assignment and per-thread pair lists with the model; serial-vs-OpenMP bit-identity runs for T in {1,2,4,8,16}",
+        text="C20_assignment/round_robin, C20_partition_links/pairs, C20_run_independent (every interleaving of the threads' accumulation steps gives the same copies), C20_merge(_pointwise), C20_steps(_every), C20_equal, C20_thread_count_independent, C20_layout_disjoint; the real OpenMP flavour assigns links as the model says, its per-thread lists partition the serial list, and every particle datum equals the serial flavour's bit for bit (exact-arithmetic regime) for every explored scenario, thread count and repetition. PARTIAL: that real threads touch only their own copies (no data race) is assumed by the model; only the repeated identical runs speak for it.",
+        note=BASE_NOTE + "Hand-written model; the tie is the correspondence with a second build flavour (-fopenmp) of the same tree. Module kinds outside the scenario generator (thermostats, DPD, tensor symbols) are not covered."),
     "C04": dict(
         level="proof", design="DESIGN.md section 3, C04",
         technique="Lean 4 proofs about the shared one-step model Sympler/Dyn.lean (pair kernel with acts-on guards, own cutoff, symmetry factor): reciprocity, free-only, own cutoff, momentum invariance for every step count; correspondence of both force buffers of every particle with the real binary after every step in the exact-arithmetic regime; momentum oracle on the real runs",
